@@ -437,7 +437,22 @@ func cmdCheck(prop, tier string) int {
 	}
 	as = append(as, cfg.Assumptions...)
 	sort.Strings(as)
-	extraCov := map[string]any{"obligations": counted, "discharged": discharged, "solver_time_s": round3(solverTime), "bounded_checks": boundedReports, "known_findings": knownLines}
+	// the slowest obligations of this run (a discharged obligation close to the timeout is a stability risk)
+	type slowOb struct {
+		Name string
+		Sec  float64
+		By   string
+	}
+	var slow []slowOb
+	for _, o := range obls {
+		slow = append(slow, slowOb{o.Name, o.Res.Seconds, o.Res.Solver})
+	}
+	sort.Slice(slow, func(i, j int) bool { return slow[i].Sec > slow[j].Sec })
+	var slowest []any
+	for i := 0; i < len(slow) && i < 5; i++ {
+		slowest = append(slowest, map[string]any{"obligation": slow[i].Name, "seconds": round3(slow[i].Sec), "solver": slow[i].By})
+	}
+	extraCov := map[string]any{"obligations": counted, "discharged": discharged, "solver_time_s": round3(solverTime), "slowest_obligations": slowest, "bounded_checks": boundedReports, "known_findings": knownLines}
 	if thorough && len(viols) == 0 && os.Getenv("GOVC_REPO") == "" {
 		// must-fail self-test of this check: up to three mutants of the corpus that name this property are applied to a
 		// scratch copy of the tree and the quick check must report them (guards against a check that has lost its teeth)
